@@ -185,10 +185,15 @@ def check_vector(vec, seed, full):
         if not ran(label, got, extra):
             return
         if not enum:
-            if not (xl.typeclass(got) in ('num', 'err')):
+            if not (xl.typeclass(got) in ('num', 'err')
+                    or key in ('omax', 'omin') and isinstance(got, bool)):
                 bad(label, f'got {got!r}, neither a number nor an error value', extra)
             return
         allowed = [['R', o['count'], 1] for o in outs] if key == 'count' else union(outs, key)
+        if key in ('omax', 'omin') and isinstance(got, bool):
+            # a selected logical of the aggregated range: whether it counts
+            # is left open, and so is the type in which MAXIFS/MINIFS hand it back
+            got = int(got)
         if not matches(got, allowed):
             bad(label, f'got {got!r}, allowed {show(allowed)}', extra)
 
@@ -422,7 +427,7 @@ def run(tier, seed):
     exhaustive_n = len(vectors)
 
     # ---- TLC -simulate: ranges up to 15 cells, up to three criteria ---------
-    ntraces = 40 if tier == 'quick' else 1500
+    ntraces = 4 if tier == 'quick' else 300
     sim = tlc.run('MC_Criteria', 'Criteria_big.cfg', workers=1,
                   simulate=dict(num=ntraces), depth=19, seed=seed + 1, timeout=600)
     if not sim.ok:
@@ -447,13 +452,13 @@ def run(tier, seed):
     skipped = sum(1 for x in vectors if not x['enum'])
 
     # quick: every vector through the library; a workbook for every
-    # one-criterion vector, a seeded fifth of the two-criteria single cells
+    # one-criterion vector, a seeded 15% of the two-criteria single cells
     # and every simulated range.  thorough: a workbook for every vector.
     def full(vec):
         if tier != 'quick':
             return 2
         return 1 if (len(vec['crits']) == 1 or len(vec['rng']) > 1
-                     or rnd.random() < 0.2) else 0
+                     or rnd.random() < 0.15) else 0
     flags = [full(x) for x in vectors]
     order = list(range(len(vectors)))
     rnd.shuffle(order)
